@@ -65,3 +65,99 @@ W5 = REG.add(Contract(
     raises=[("KeyError", lambda c: z3.And(isnan(c.a["n"].t), LI.nomatch(WS.wv(c), K_NULL)))],
     ensures=w5_post, returns=STR, verify_with=verify_w5,
     properties=("C01", "C06"), may_raise=[], reveal=("np",)))
+
+
+# ---------------------------------------------------------------- W7: the data-row loop of writer.write (unwrapped case)
+from pyvc import blocks as BL
+colfmt = z3.Function("column_fmt_of", I, S)
+fmtcell = z3.Function("formatted_cell", PyObj, S, S, S)        # format_data_section_line(n, fmt, spacing_chars=sp)
+rowtext = z3.Function("row_text", I, I, S)                      # first j cells of row i, concatenated
+getitem = z3.Function("py_getitem", PyObj, PyObj, PyObj)
+
+REG.add(Contract("lib:get_column_fmt", params={"j": INT}, returns=lambda c: VStr(colfmt(c.a["j"].t)), assumed=True, noraise=True,
+                 note="closure of writer.write: column_fmt.get(j, fmt) - a function of j", properties=("C01",)))
+REG.add(Contract("lib:get_left_spacing", params={"j": INT}, assumed=True, noraise=True,
+                 returns=lambda c: VStr(z3.If(c.a["j"].t == 0, z3.String("lhs_spacer"), z3.String("spacer"))),
+                 note="closure of writer.write: lhs_spacer for column 0, spacer otherwise", properties=("C01",)))
+REG.add(Contract("lib:format_data_section_line", params={"n": OBJ, "fmt": STR, "spacing_chars": STR}, assumed=True, noraise=True,
+                 returns=lambda c: VStr(fmtcell(c.a["n"].t, c.a["fmt"].t, c.a["spacing_chars"].t)),
+                 note="the cell formatter closure, verified separately as W5", properties=("C01",)))
+REG.add(Contract("lib:textwrap.TextWrapper", params={"width": "any"}, returns=OBJ, assumed=True, noraise=True, properties=("C01",)))
+
+
+def w7_cell(c, i, j):
+    v = API.cv(_LasAlias(c))
+    data = z3.Select(c.h("data"), v.item(j))
+    sp = z3.If(j == 0, z3.String("lhs_spacer"), z3.String("spacer"))
+    return fmtcell(getitem(data, obj_of_int(i)), colfmt(j), sp)
+
+
+class _LasAlias:
+    def __init__(s, c):
+        s.__dict__.update(c.__dict__)
+        s.a = dict(c.a); s.a["self"] = c.a["las"]
+        s._c = c
+
+    def h(s, f): return s._c.h(f)
+    def old(s, f): return s._c.old(f)
+
+
+def w7_init(c, st):
+    i, j = z3.Int("rt_i"), z3.Int("rt_j")
+    st.assume(z3.ForAll([i], rowtext(i, 0) == z3.StringVal(""), patterns=[rowtext(i, 0)]))
+    step = z3.ForAll([i, j], z3.Implies(j >= 0, rowtext(i, j + 1) == z3.Concat(rowtext(i, j), w7_cell(c, i, j))), patterns=[rowtext(i, j + 1)])
+    st.assume(step)
+    st.ghost["ax:rowtext-step"] = step
+    st.ghost["$written"] = VList(z3.IntVal(0), [z3.K(I, z3.StringVal(""))], STR)
+
+
+def w7_write_hook(c, st):
+    line = st.env["line"]
+    w = st.ghost["$written"]
+    st.ghost["$written"] = VList(w.n + 1, [z3.Store(w.cols[0], w.n, z3.Concat(line.t, z3.StringVal("\n")))], STR)
+
+
+def w7_outer(c):
+    w = c.g("$written")
+    q = z3.Int("q7")
+    return [("one-physical-line-per-row-so-far", w.n == c.i),
+            ("each-line-is-the-row's-cells-in-curve-order", z3.ForAll([q], z3.Implies(z3.And(0 <= q, q < c.i),
+                                                                                      z3.Select(w.cols[0], q) == z3.Concat(rowtext(q, c.a["ncols"].t), z3.StringVal("\n"))))),
+            ("heap-untouched", z3.And(c.h("data") == c.old("data"), c.h("$items") == c.old("$items"), c.h("$len") == c.old("$len")))]
+
+
+def w7_inner(c):
+    i = c.v("i").t
+    return [("cells-so-far", c.v("depth_slice").t == rowtext(i, c.i)),
+            ("row-index", z3.And(0 <= i, i < c.a["nrows"].t)),
+            ("nothing-written-meanwhile", c.g("$written").n == i)] + w7_outer_at(c, i)
+
+
+def w7_outer_at(c, i):
+    w = c.g("$written")
+    q = z3.Int("q7b")
+    return [("earlier-lines-kept", z3.ForAll([q], z3.Implies(z3.And(0 <= q, q < i),
+                                                            z3.Select(w.cols[0], q) == z3.Concat(rowtext(q, c.a["ncols"].t), z3.StringVal("\n"))))),
+            ("heap-untouched", z3.And(c.h("data") == c.old("data"), c.h("$items") == c.old("$items"), c.h("$len") == c.old("$len")))]
+
+
+def w7_verify(E, c):
+    body, fn = BL.find_block(E, "writer.write", "twrapper = textwrap.TextWrapper", "for i in range(nrows)")
+    return E.verify(c, fnode=fn, body=body, module="writer")
+
+
+W7 = REG.add(Contract(
+    "writer.write#W7-data-rows(unwrapped)",
+    params={"las": API.LAS, "nrows": INT, "ncols": INT, "wrap": CONST(False), "data_width": INT, "file_object": FILE,
+            "line_counter": INT, "version_section_to_write": LI.SI,
+            "get_column_fmt": VExt("lib:get_column_fmt"), "get_left_spacing": VExt("lib:get_left_spacing"),
+            "format_data_section_line": VExt("lib:format_data_section_line")},
+    requires=lambda c: API.las_shape(_LasAlias(c)) + LI.shape(c, selfname="version_section_to_write") + [
+        ("as-many-columns-as-curves", z3.And(c.a["ncols"].t == API.cv(_LasAlias(c)).n, c.a["nrows"].t >= 0))],
+    ensures=lambda c: [("one-physical-line-per-row", c.g("$written").n == c.a["nrows"].t)] + w7_outer_at(c, c.a["nrows"].t)[:1],
+    loops={0: w7_outer, 1: w7_inner}, loop_ghost={0: ["$written"], 1: ["$written"]},
+    loop_hints={1: lambda c: [(c.g("ax:rowtext-step"), [c.v("i").t, c.i])]},
+    ghost_init=w7_init, hooks={'file_object.write(line + "\\n")': w7_write_hook},
+    verify_with=w7_verify, may_raise=["AttributeError", "Any"], free_default=True,
+    properties=("C01",)))
+W7.note = "wrapped output goes through textwrap (T-wrap), outside the contract; data[i] is an opaque numpy index"
